@@ -255,6 +255,14 @@ def defined_before_use(ctx: Ctx):
         for lid, lp in prog.loops.items():
             if lp.func == fr.qualname and "@" not in lid:
                 terms += [v for v in lp.next.values()] + [lp.iter]
+        for lid, lp in prog.loops.items():
+            if lp.func == fr.qualname and "@" not in lid:
+                for nme, init in lp.init.items():
+                    nxt = lp.next.get(nme)
+                    if init == ("undef",) and nxt is not None and any(x == ("carried", lid, nme) for x in walk(nxt)):
+                        # read (or mutated in place) in the loop before any assignment
+                        if nxt[0] in ("mut", "setitem", "setattr") or nxt[0] == "binop":
+                            bad.append((q, nxt))
         n += len(terms)
         for t in terms:
             if any(True for _ in scan(t)):
